@@ -7,11 +7,11 @@ schema as the quantified object. The text the generator EMITS for the `serialize
 struct class is the rendering of an abstract program (`Model/Codec/EmissionSem.lean`,
 `serialize_text_is_render`, `size_text_is_render`), and running that program on an object computes
 exactly what the interpreter computes (`emitted_serialize_eq_encode`, `emitted_size_eq_size`). The
-`deserialize` body is the rendering of an abstract program too (`deserialize_text_is_render`); for classes
-without a member laid out before its discriminant, with or without base class, whatever the interpreter
-decodes the emitted program returns (`emitted_deserialize_of_decode`). For the classes that read a member
-into a temporary buffer (6 shipped types) the tie is still execution (harness/c15.py: random schemas
-compiled by the real generator and run against the driver).
+`deserialize` body is the rendering of an abstract program too (`deserialize_text_is_render`), and for every
+concrete class -- with or without base class, members read into the temporary buffer before their
+discriminant included -- whatever the interpreter decodes the emitted program returns
+(`emitted_deserialize_of_decode`). harness/c15.py ties the rendered text to the real generator on random
+schemas and runs the result against the driver.
 "Generating twice gives identical text" is, at the modelled granularity, `generate_deterministic`.
 -/
 import SymbolVerif.Properties.C01
@@ -151,41 +151,41 @@ theorem emitted_serialize_roundtrip (S : Schema) (T : String → Bytes → Bytes
 
 `WFGD` (EmissionDes.lean) collects what the generator needs of a schema for the emitted `deserialize` to mean what
 the layout says (names written unmangled as locals, unsigned counts and sizes, only the size member called `size`,
-own members of a derived class referring to own members only). `d.noUnion`: no member is laid out before its
-discriminant (the temporary-buffer mechanism is not covered by the theorem yet). -/
+own members of a derived class referring to own members only, the class storing exactly the value-carrying members). -/
 
 /-- running the emitted `deserialize` of a concrete class -- `Base._deserialize(buffer, instance)` and the window it
-    returns, if the class has a base class, then the class's own member statements -- returns whatever the
-    interpreter's `decConcrete` decodes from the same bytes -/
+    returns, if the class has a base class, then the class's own member statements, a member laid out before its
+    discriminant being read into `<discriminant>_condition` and read again from there once the discriminant is known --
+    returns whatever the interpreter's `decConcrete` decodes from the same bytes -/
 theorem emitted_deserialize_of_decode (S : Schema) (T : String → Bytes → Bytes) (rec : Rec) (hwf : WF S = true)
     (hwgd : WFGD S = true) (ty : String) (d : StructDef) (hfind : S.find ty = some (.struct d))
-    (hnu : d.noUnion = true) (hnn : ∀ t b v, rec.dec t b = .ok v → v ≠ .none)
+    (hnn : ∀ t b v, rec.dec t b = .ok v → v ≠ .none)
     (cls : String) (payload : Bytes) (v : Val) (hdec : decConcrete S T rec cls d payload = .ok v) :
     emittedDeserialize S T rec cls d payload = .ok v :=
-  emittedDeserialize_of_dec hwf hwgd hfind hnu hnn hdec
+  emittedDeserialize_of_dec hwf hwgd hfind hnn hdec
 
 /-- with the recursion closed by fuel: what `decode` reads for a concrete class, the emitted `deserialize` returns -/
 theorem emitted_deserialize_decode (S : Schema) (T : String → Bytes → Bytes) (hwf : WF S = true) (hwgd : WFGD S = true)
     (ty : String) (d : StructDef) (hfind : S.find ty = some (.struct d)) (hconc : d.abstract = false)
-    (hnu : d.noUnion = true) (n : Nat) (payload : Bytes) (v : Val)
+    (n : Nat) (payload : Bytes) (v : Val)
     (hdec : (recN S T (n + 1)).dec ty payload = .ok v) :
     emittedDeserialize S T (recN S T n) ty d payload = .ok v := by
   have hdec' : decTypeStep S T (recN S T n) ty payload = .ok v := hdec
   unfold decTypeStep at hdec'
   simp only [hfind, hconc, Bool.false_eq_true, if_false] at hdec'
-  exact emittedDeserialize_of_dec hwf hwgd hfind hnu (recN_dec_ne_none S T n) hdec'
+  exact emittedDeserialize_of_dec hwf hwgd hfind (recN_dec_ne_none S T n) hdec'
 
 /-- the emitted `serialize` and `deserialize` round-trip: for an admissible object that encodes, the emitted
     `deserialize` reads the object back from what the emitted `serialize` returns, also with trailing bytes -/
 theorem emitted_roundtrip (S : Schema) (T : String → Bytes → Bytes) (hwf : WF S = true) (hwg : WFG S = true)
     (hwgd : WFGD S = true) (ty : String) (d : StructDef) (hfind : S.find ty = some (.struct d))
-    (hconc : d.abstract = false) (hnu : d.noUnion = true) (vs : List (String × Val)) (b : Bytes) (n : Nat)
+    (hconc : d.abstract = false) (vs : List (String × Val)) (b : Bytes) (n : Nat)
     (henc : (recN S T (n + 1)).enc ty (.struct ty vs) = .ok b) (hadm : admN S T (n + 1) ty (.struct ty vs) = true)
     (hobj : pyObjOk d vs = true) (tail : Bytes) :
     emittedSerialize S T (recN S T n) d vs = .ok b ∧
       emittedDeserialize S T (recN S T n) ty d (b ++ tail) = .ok (.struct ty vs) := by
   refine ⟨(emitted_serialize_roundtrip S T hwf hwg ty d hfind hconc vs b n henc hadm hobj).1, ?_⟩
-  exact emitted_deserialize_decode S T hwf hwgd ty d hfind hconc hnu n _ _ ((C01.roundtrip (T := T) hwf henc hadm).2 tail)
+  exact emitted_deserialize_decode S T hwf hwgd ty d hfind hconc n _ _ ((C01.roundtrip (T := T) hwf henc hadm).2 tail)
 
 theorem symbol_wfg : WFG Generated.Symbol.schema = true := by decide +kernel
 
@@ -263,7 +263,7 @@ example :
       | _ => false) = true := by decide +kernel
 
 /-! non-vacuity of the `deserialize` theorem on shipped types (base class with size member / without, counted,
-    sized-aligned and fill arrays, conditions after their discriminant): the hypotheses hold, and the emitted program
+    sized-aligned and fill arrays, conditions after and before their discriminant): the hypotheses hold, and the emitted program
     reads the encoding (with trailing bytes) back to an object with the same encoding -/
 def emittedReads (S : Schema) (v : Val) (tail : Bytes) : Bool :=
   match v with
@@ -272,7 +272,7 @@ def emittedReads (S : Schema) (v : Val) (tail : Bytes) : Bool :=
       | some (.struct d) =>
         let r := recN S C01.Examples.idT (defaultFuel S)
         let b := C01.Examples.bytesOf S ty v
-        d.noUnion && !d.abstract && !b.isEmpty &&
+        !d.abstract && !b.isEmpty &&
           (match emittedDeserialize S C01.Examples.idT r ty d (b ++ tail), decConcrete S C01.Examples.idT r ty d (b ++ tail) with
             | .ok v1, .ok v2 => sameBytes (encode S C01.Examples.idT ty v1) (.ok b) && sameBytes (encode S C01.Examples.idT ty v2) (.ok b)
             | _, _ => false)
@@ -282,6 +282,11 @@ def emittedReads (S : Schema) (v : Val) (tail : Bytes) : Bool :=
 example : emittedReads Generated.Symbol.schema C01.Examples.transfer [7, 7, 7] = true := by decide +kernel
 example : emittedReads Generated.Symbol.schema C01.Examples.aggregate [1] = true := by decide +kernel
 example : emittedReads Generated.Nem.schema (C01.Examples.nemMultisig C01.Examples.nemMsg) [] = true := by decide +kernel
+/-- both arms of a union read through the temporary buffer (`duration` / `parent_id` before `registration_type`) -/
+example : emittedReads Generated.Symbol.schema (C01.Examples.nsReg 0) [5, 5] = true ∧
+    emittedReads Generated.Symbol.schema (C01.Examples.nsReg 1) [5, 5] = true ∧
+    (match Generated.Symbol.schema.find "NamespaceRegistrationTransactionV1" with
+      | some (.struct d) => !d.noUnion | _ => false) = true := by decide +kernel
 
 /-! a former finding of the generator, repaired in /repo (commit "fix: _deserialize of an abstract struct uses its size
     member whatever it is called"): `_deserialize` of an abstract class returned the window `(size_ - len(buffer), size_)`,
@@ -309,7 +314,7 @@ example :
       | some (.struct d), some (.struct da) =>
         let r := recN sizeNameSchema C01.Examples.idT 3
         let payload : Bytes := [9, 0, 0, 0, 7, 0, 5, 2, 1, 9, 9, 9, 9]
-        WF sizeNameSchema && d.noUnion && storedOk d && !storedOk da &&
+        WF sizeNameSchema && storedOk d && !storedOk da &&
         (match decConcrete sizeNameSchema C01.Examples.idT r "Child" d payload, emittedDeserialize sizeNameSchema C01.Examples.idT r "Child" d payload with
           | .ok v1, .ok (.struct ty (("total_size", .int 9) :: vs2)) =>
             sameBytes (encode sizeNameSchema C01.Examples.idT "Child" v1) (.ok [9, 0, 0, 0, 7, 0, 5, 2, 1]) &&
